@@ -22,7 +22,13 @@ impl Formatter {
     /// Format a program and return the formatted source
     pub fn format(mut self, program: &Program) -> String {
         self.format_program(program);
-        self.writer.finish()
+        // Every declaration ends its last line itself, and a declaration that ends in a `match`
+        // statement leaves a blank line behind it: keep exactly one newline at the end of the file.
+        let mut output = self.writer.finish();
+        while output.ends_with("\n\n") {
+            output.pop();
+        }
+        output
     }
 
     fn write_visibility(&mut self, visibility: crate::frontend::ast::Visibility) {
@@ -56,8 +62,6 @@ impl Formatter {
             first = false;
         }
 
-        // Ensure file ends with newline
-        self.writer.newline();
     }
 
     // ========================================================================
